@@ -1,4 +1,4 @@
-// dhcpfile.go — F16: the DHCPv4 lease-file logic and handler construction of handlers/dhcp4_spoofer
+// dhcpfile.go — F19: the DHCPv4 lease-file logic and handler construction of handlers/dhcp4_spoofer
 // (newSubnet, configChanged, loadConfig, loadByteArray, saveConfig, Config.New) translated statement by statement
 // into Lean `do` blocks over the vocabulary of lean/PacketVerif/Model/DhcpFileGo.lean  →  Gen/DhcpFileGen.lean.
 // The tie theorems are in Props/C18FileTie.lean.  Anything without a supported form REFUSES the function (it is listed
@@ -326,6 +326,12 @@ func (t *dfT) binary(x *ast.BinaryExpr) (string, bool) {
 		return "(" + a + " != " + b + ")", ea || eb
 	case token.LSS:
 		return "(decide (" + a + " < " + b + "))", ea || eb
+	case token.LEQ:
+		return "(decide (" + a + " ≤ " + b + "))", ea || eb
+	case token.GTR:
+		return "(decide (" + a + " > " + b + "))", ea || eb
+	case token.GEQ:
+		return "(decide (" + a + " ≥ " + b + "))", ea || eb
 	case token.OR:
 		return "(" + a + " ||| " + b + ")", ea || eb
 	case token.SUB:
